@@ -19,7 +19,7 @@ def finite(x):
 
 class C03(Check):
     pid = "C03"
-    lean_modules = []
+    lean_modules = ["MTProps.C03"]
 
     def body(self):
         rng = self.rng
@@ -310,7 +310,7 @@ class C05(Check):
 
 class C07(Check):
     pid = "C07"
-    lean_modules = []
+    lean_modules = ["MTProps.C07"]
 
     def body(self):
         rng = self.rng
